@@ -514,7 +514,7 @@ def run_one(ctl: explorer.Ctl, cfg: Dict[str, Any]) -> Dict[str, Any]:
     errors = loop.collect_errors()
     loop.abandon()
     if status != "ok":
-        raise core.HarnessError(f"block {cfg} did not complete: {status} {val!r}")
+        raise core.HarnessError(f"block {cfg} did not complete: {status} {core.clean_repr(val)}")
     if errors:
         raise core.HarnessError(f"block {cfg}: event loop reported {errors[:2]}")
     if single:
@@ -653,7 +653,7 @@ def run_overlap(ctl: explorer.Ctl, cfg: Dict[str, Any]) -> Dict[str, Any]:
     errors = loop.collect_errors()
     loop.abandon()
     if status != "ok":
-        raise core.HarnessError(f"overlap {cfg} did not complete: {status} {val!r}")
+        raise core.HarnessError(f"overlap {cfg} did not complete: {status} {core.clean_repr(val)}")
     if sum(reached) == 0:
         raise core.HarnessError("seam missing: no gated handler was reached")
     viol: List[dict] = []
